@@ -314,3 +314,6 @@ def run(ctx, eng):
                'frames for a forgotten stream: RST_STREAM after a reset, '
                'STREAM_CLOSED after END_STREAM, PROTOCOL_ERROR otherwise - '
                'decided for the stream the frame arrived on')
+    cm.include(ctx, eng, 'C09', {'ARITH.lookup'},
+               'a frame on an idle stream is PROTOCOL_ERROR, on a forgotten '
+               'one STREAM_CLOSED: told apart by the id\'s own direction')
